@@ -262,6 +262,18 @@ func valueFromCall(v ssa.Value, callees []string, seen map[ssa.Value]bool) bool 
 	if call, _ := callOfValue(v); call != nil {
 		return nameIn(ir.CalleeName(&call.Call), callees)
 	}
+	if ld, ok := v.(*ssa.UnOp); ok && ld.Op == token.MUL {
+		if _, isAlloc := ld.X.(*ssa.Alloc); isAlloc {
+			if seen[v] {
+				return false
+			}
+			seen[v] = true
+			if sv := storeBefore(ld); sv != nil {
+				return valueFromCall(sv, callees, seen)
+			}
+		}
+		return false
+	}
 	if phi, ok := v.(*ssa.Phi); ok {
 		if seen[v] {
 			return true
@@ -463,16 +475,77 @@ func trunc(s string, n int) string {
 var errorType = types.Universe.Lookup("error").Type()
 
 var errCtorNames = map[string]bool{
-	"utils.LavaFormatError": true, "utils.LavaFormatWarning": true, "utils.LavaFormatLog": false,
 	"fmt.Errorf": true, "errors.New": true,
-	"cosmossdk.io/errors.Wrap": false, // Wrap(nil) is nil
-	"cosmossdk.io/errors.Wrapf":           false,
-	"cosmossdk.io/errors.Error.Wrap":      true,
-	"cosmossdk.io/errors.Error.Wrapf":     true,
-	"cosmossdk.io/errors.Register":        true,
+	"cosmossdk.io/errors.Error.Wrap":           true,
+	"cosmossdk.io/errors.Error.Wrapf":          true,
+	"cosmossdk.io/errors.Register":             true,
 	"cosmossdk.io/errors.RegisterWithGRPCCode": true,
-	"google.golang.org/grpc/status.Error": true,
-	"google.golang.org/grpc/status.Errorf": true,
+	"google.golang.org/grpc/status.Error":      true,
+	"google.golang.org/grpc/status.Errorf":     true,
+}
+
+var nonNilMemo = map[*ssa.Function]int{} // 0 unknown, 1 in progress, 2 yes, 3 no
+
+// alwaysNonNilErr: every return of fn carries a certainly non-nil error in its last
+// result (computed from the body; e.g. utils.LavaFormatLog and its wrappers).
+func alwaysNonNilErr(fn *ssa.Function) bool {
+	if fn == nil || fn.Blocks == nil {
+		return false
+	}
+	switch nonNilMemo[fn] {
+	case 1, 3:
+		return false
+	case 2:
+		return true
+	}
+	res := fn.Signature.Results()
+	if res.Len() == 0 || !types.Identical(res.At(res.Len()-1).Type(), errorType) {
+		nonNilMemo[fn] = 3
+		return false
+	}
+	nonNilMemo[fn] = 1
+	ok := true
+	n := 0
+	ir.EachInstr(fn, func(in ssa.Instruction) {
+		if r, isRet := in.(*ssa.Return); isRet {
+			n++
+			if !nonNilError(r.Results[len(r.Results)-1], r.Block(), map[ssa.Value]bool{}) {
+				ok = false
+			}
+		}
+	})
+	if ok && n > 0 {
+		nonNilMemo[fn] = 2
+		return true
+	}
+	nonNilMemo[fn] = 3
+	return false
+}
+
+// storeBefore: the value most recently stored to the loaded address earlier in the
+// load's own block (nil if the block does not store to it before the load).
+func storeBefore(ld *ssa.UnOp) ssa.Value {
+	var v ssa.Value
+	for _, in := range ld.Block().Instrs {
+		if in == ld {
+			break
+		}
+		if st, ok := in.(*ssa.Store); ok && st.Addr == ld.X {
+			v = st.Val
+		}
+	}
+	return v
+}
+
+// lastStoreInBlock returns the value most recently stored to addr in block b (nil if none).
+func lastStoreInBlock(addr ssa.Value, b *ssa.BasicBlock) ssa.Value {
+	var v ssa.Value
+	for _, in := range b.Instrs {
+		if st, ok := in.(*ssa.Store); ok && st.Addr == addr {
+			v = st.Val
+		}
+	}
+	return v
 }
 
 // nonNilError: v is certainly a non-nil error at the point it is returned from block b.
@@ -490,8 +563,57 @@ func nonNilError(v ssa.Value, b *ssa.BasicBlock, seen map[ssa.Value]bool) bool {
 		return nonNilError(x.X, b, seen)
 	case *ssa.UnOp:
 		if x.Op == token.MUL {
-			if g, ok := x.X.(*ssa.Global); ok && strings.HasPrefix(g.Name(), "Err") {
-				return true
+			if g, ok := x.X.(*ssa.Global); ok {
+				// package-level error values: Err* by convention, or registered sdk errors
+				if strings.HasPrefix(g.Name(), "Err") || ir.TypeName(x.Type()) == "cosmossdk.io/errors.Error" {
+					return true
+				}
+			}
+			// named result / captured variable: the value is what this block stored last
+			if a, ok := x.X.(*ssa.Alloc); ok {
+				if seen[v] {
+					return false
+				}
+				seen[v] = true
+				if sv := storeBefore(x); sv != nil {
+					return nonNilError(sv, x.Block(), seen)
+				}
+				b = x.Block()
+				// no store in this block: a dominating `*a != nil` decision, provided the
+				// blocks in between do not store to a
+				for _, g := range ir.GuardsOfBlock(b) {
+					cv, edge := stripNot(g.If.Cond, g.Edge)
+					bo, ok := cv.(*ssa.BinOp)
+					if !ok || (bo.Op != token.NEQ && bo.Op != token.EQL) {
+						continue
+					}
+					var other ssa.Value
+					if isNilConst(bo.Y) {
+						other = bo.X
+					} else if isNilConst(bo.X) {
+						other = bo.Y
+					}
+					ld, ok := other.(*ssa.UnOp)
+					if !ok || ld.Op != token.MUL || ld.X != a || (bo.Op == token.NEQ) != edge {
+						continue
+					}
+					// value tested is the last one stored before the test within the
+					// guard's block, and nothing on the way stores again
+					clean := true
+					succ := g.Block.Succs[0]
+					if !g.Edge {
+						succ = g.Block.Succs[1]
+					}
+					for blk := range ir.Reachable(succ, func(x *ssa.BasicBlock) bool { return !succ.Dominates(x) }) {
+						if blk != b && blk.Dominates(b) && lastStoreInBlock(a, blk) != nil {
+							clean = false
+						}
+					}
+					if clean {
+						return true
+					}
+				}
+				return false
 			}
 		}
 	case *ssa.Phi:
@@ -510,6 +632,9 @@ func nonNilError(v ssa.Value, b *ssa.BasicBlock, seen map[ssa.Value]bool) bool {
 		if errCtorNames[ir.CalleeName(&call.Call)] {
 			return true
 		}
+		if sc := call.Call.StaticCallee(); sc != nil && alwaysNonNilErr(sc) {
+			return true
+		}
 	}
 	// dominated by (v != nil)
 	for _, g := range ir.GuardsOfBlock(b) {
@@ -526,8 +651,6 @@ func nonNilError(v ssa.Value, b *ssa.BasicBlock, seen map[ssa.Value]bool) bool {
 			}
 		}
 	}
-	// the If terminating a predecessor chain inside the same block is covered by
-	// GuardsOfBlock; nothing else is known
 	return false
 }
 
@@ -553,6 +676,13 @@ type PathResult struct {
 // a return accepted by isExit passes an instruction for which through() is true. Deferred
 // calls count when the Defer instruction is passed.
 func (c *Ctx) MustPass(fn *ssa.Function, from ssa.Instruction, through func(ssa.Instruction) bool, isExit func(*ssa.Return) bool) PathResult {
+	return c.MustPassOpt(fn, from, through, isExit, nil)
+}
+
+// MustPassOpt is MustPass with a predicate naming branch outcomes that are assumed
+// infeasible (e.g. the `session == nil` outcome after a successful initRelay); such
+// edges are not followed. Every use records the assumption in the evidence.
+func (c *Ctx) MustPassOpt(fn *ssa.Function, from ssa.Instruction, through func(ssa.Instruction) bool, isExit func(*ssa.Return) bool, infeasible func(iff *ssa.If, edge bool) bool) PathResult {
 	type item struct {
 		b    *ssa.BasicBlock
 		from int
@@ -588,7 +718,7 @@ func (c *Ctx) MustPass(fn *ssa.Function, from ssa.Instruction, through func(ssa.
 				passed = true
 				break
 			}
-			if ret, ok := in.(*ssa.Return); ok {
+			if ret, ok := in.(*ssa.Return); ok && it.b != fn.Recover {
 				if isExit == nil || isExit(ret) {
 					res.Returns++
 					if res.OK {
@@ -608,7 +738,12 @@ func (c *Ctx) MustPass(fn *ssa.Function, from ssa.Instruction, through func(ssa.
 		if passed {
 			continue
 		}
-		for _, s := range it.b.Succs {
+		for si, s := range it.b.Succs {
+			if infeasible != nil && len(it.b.Succs) == 2 {
+				if iff, ok := it.b.Instrs[len(it.b.Instrs)-1].(*ssa.If); ok && infeasible(iff, si == 0) {
+					continue
+				}
+			}
 			if !seen[s] {
 				if _, ok := parent[s]; !ok {
 					parent[s] = it.b
@@ -694,7 +829,7 @@ func sortedKeys(m map[string]bool) []string {
 func (c *Ctx) SuccessReturns(fn *ssa.Function) []Site {
 	var out []Site
 	ir.EachInstr(fn, func(in ssa.Instruction) {
-		if r, ok := in.(*ssa.Return); ok && !IsFailureReturn(r) {
+		if r, ok := in.(*ssa.Return); ok && r.Block() != fn.Recover && !IsFailureReturn(r) {
 			out = append(out, Site{Fn: fn, Instr: in, Kind: "return"})
 		}
 	})
@@ -1008,4 +1143,45 @@ func (c *Ctx) RequireResultNamesAgree(rule string, fn *ssa.Function, callee stri
 	if n < min {
 		c.Undecided("%s: expected >=%d field stores from %s in %s, found %d", rule, min, callee, ir.FuncName(fn), n)
 	}
+}
+
+// NilEdgeOfType: the `== nil` outcome of a comparison of a value of the named pointer
+// type with nil (used as an infeasible-edge assumption).
+func NilEdgeOfType(typeName string) func(iff *ssa.If, edge bool) bool {
+	return func(iff *ssa.If, edge bool) bool {
+		v, e := stripNot(iff.Cond, edge)
+		b, ok := v.(*ssa.BinOp)
+		if !ok || (b.Op != token.EQL && b.Op != token.NEQ) {
+			return false
+		}
+		var other ssa.Value
+		switch {
+		case isNilConst(b.Y):
+			other = b.X
+		case isNilConst(b.X):
+			other = b.Y
+		default:
+			return false
+		}
+		if ir.TypeName(other.Type()) != typeName {
+			return false
+		}
+		isNil := (b.Op == token.EQL) == e
+		return isNil
+	}
+}
+
+// RetVal resolves the i-th returned value: with deferred calls the named results are
+// spilled to locals and the Return carries loads; the value is what the return's own block
+// stored last.
+func RetVal(ret *ssa.Return, i int) ssa.Value {
+	v := ret.Results[i]
+	if ld, ok := v.(*ssa.UnOp); ok && ld.Op == token.MUL {
+		if _, isAlloc := ld.X.(*ssa.Alloc); isAlloc {
+			if sv := storeBefore(ld); sv != nil {
+				return sv
+			}
+		}
+	}
+	return v
 }
